@@ -306,6 +306,9 @@ pub fn worker(ctx: &mut WorkerCtx) {
         check_consts::<u64>(ctx);
     }
     // 8 bit: everything
+    // once a few hundred contract violations are recorded the verdict is clear: stop (a helper that
+    // misbehaves may also be arbitrarily slow or memory hungry on the remaining 2^32 calls)
+    const ENOUGH: u64 = 300;
     for d in 0..256u64 {
         if d % nshards != shard {
             continue;
@@ -323,6 +326,9 @@ pub fn worker(ctx: &mut WorkerCtx) {
     for d in 0..65536u64 {
         if d % nshards != shard {
             continue;
+        }
+        if ctx.violations >= ENOUGH {
+            return;
         }
         let selected = thorough || d < 600 || d % 97 == 0 || (d & d.wrapping_sub(1)) == 0 || ((d + 1) & d) == 0 || d > 65000;
         if selected {
@@ -355,11 +361,17 @@ pub fn worker(ctx: &mut WorkerCtx) {
         n32 += 2;
         if n32 % (1 << 22) == 0 {
             ctx.beat(v);
+            if ctx.violations >= ENOUGH {
+                return;
+            }
         }
         v += stride;
     }
     ctx.count("evaluations", n32);
     ctx.distinct(0x320000 + shard);
+    if ctx.violations >= ENOUGH {
+        return;
+    }
     // 32/64 bit: structured lattice
     structured::<u32>(ctx, shard, nshards);
     structured::<u64>(ctx, shard, nshards);
@@ -389,11 +401,19 @@ pub fn replay(j: &J) -> (bool, String) {
             }
         }};
     }
-    match w {
-        8 => go!(u8),
-        16 => go!(u16),
-        32 => go!(u32),
-        _ => go!(u64),
+    // the sweep visits the widths in one thread, narrowest first: a helper whose answer depends on what was
+    // asked before at another width (shared memo table, static scratch) only fails with that history, so the
+    // replay asks the same question at every narrower width first
+    for ww in [8u32, 16, 32, 64] {
+        if ww > w.max(8) {
+            break;
+        }
+        match ww {
+            8 => go!(u8),
+            16 => go!(u16),
+            32 => go!(u32),
+            _ => go!(u64),
+        }
     }
     let got = ctx.collected.unwrap_or_default();
     (got.iter().any(|g| g.str("op") == Some(op)), format!("{} failures", got.len()))
